@@ -9,7 +9,7 @@
    root.start [3,4)  start-up complete at 4; CLI run() returns (or raises) at 5.                                          *)
 EXTENDS Naturals, Integers, Sequences, FiniteSets, TLC
 CONSTANTS MaxComps
-Results == {"none", "0", "5", "127", "128", "-1", "str", "emptystr", "float0", "list"}
+Results == {"none", "0", "5", "127", "128", "-1", "str", "emptystr", "float0", "list", "enum0", "enum78", "true"}
 Phases == {"creating", "preparing", "starting"}
 \* ending kinds: cli result / run() raises / a component fails / start-up stalls beyond the timeout / a signal at time `at` (in halves:
 \* 1 = 0.5, 3 = 1.5, ...) / a service task crashing at time `at`
@@ -28,8 +28,10 @@ Next == ~done /\ done' = TRUE /\ UNCHANGED prog
 StartupDone == 8                                   \* time 4, in halves
 Outcome(p) ==
   LET e == p.end IN
-  CASE e.kind = "result" -> (IF e.r \in {"none", "0"} THEN [k |-> "return"] ELSE IF e.r = "5" THEN [k |-> "exit", code |-> 5]
-                             ELSE IF e.r = "127" THEN [k |-> "exit", code |-> 127] ELSE [k |-> "exit", code |-> 1])
+  \* enum0 / enum78: members of an IntEnum (integers all the same); true: the bool True, i.e. the integer 1
+  CASE e.kind = "result" -> (IF e.r \in {"none", "0", "enum0"} THEN [k |-> "return"] ELSE IF e.r = "5" THEN [k |-> "exit", code |-> 5]
+                             ELSE IF e.r = "127" THEN [k |-> "exit", code |-> 127] ELSE IF e.r = "enum78" THEN [k |-> "exit", code |-> 78]
+                             ELSE [k |-> "exit", code |-> 1])
     [] e.kind = "runraises" -> [k |-> "raise", exc |-> "RunBoom"]
     [] e.kind \in {"fail", "timeout"} -> [k |-> "exit", code |-> 1]
     [] e.kind = "signal" -> IF e.at < StartupDone THEN [k |-> "exit", code |-> 1] ELSE [k |-> "return"]
